@@ -42,6 +42,11 @@ pub struct Test {
     /// an `if` (the parent's context stack is not empty when it forks)
     #[serde(default)]
     pub wrap: u8,
+    /// (`( )` at the top level of a job-control shell only) the subshell stops
+    /// itself: the shell goes on with a suspended job in its table and must
+    /// have taken the terminal back; the job is resumed with `fg` afterwards
+    #[serde(default)]
+    pub stops: bool,
 }
 
 #[derive(Clone, Debug, Serialize, Deserialize)]
@@ -161,6 +166,7 @@ fn gen_test(rng: &mut Rng, n: &mut u32, id: &mut u32, depth: u32) -> Test {
         nested,
         in_function,
         wrap: *rng.pick(&[0u8, 0, 0, 0, 1, 2]),
+        stops: false,
     }
 }
 
@@ -183,6 +189,13 @@ pub fn generate(rng: &mut Rng, tier: Tier) -> Case {
             if rng.bool() {
                 n += 1;
                 t.pre.push(format!("trap 'echo J{n}' {}", rng.pick(&["TTOU", "TTOU", "TSTP", "TTIN"])));
+            }
+        }
+    }
+    if job_control {
+        for t in &mut tests {
+            if t.kind == Kind::Paren && t.nested.is_none() && t.wrap == 0 && !t.in_function && rng.bool() {
+                t.stops = true;
             }
         }
     }
@@ -224,6 +237,10 @@ fn render_test(t: &Test, out: &mut String) {
     // positive control: the child writes a file the parent reads afterwards
     let ctl_file = format!("/work/ctl{k}");
     match t.kind {
+        Kind::Paren if t.stops => out.push_str(&format!(
+            "( snap E{k}; {}selfstop; echo data{k} >{ctl_file}; snap X{k} )\nsnap C{k}\nfg >|/dev/null 2>&1\ncat {ctl_file}\n",
+            join(&t.child),
+        )),
         Kind::Paren => out.push_str(&format!(
             "( snap E{k}; {}{}echo data{k} >{ctl_file}; snap X{k} )\nsnap C{k}\ncat {ctl_file}\n",
             join(&t.child),
@@ -398,6 +415,10 @@ fn check_test(t: &Test, snaps: &BTreeMap<String, SnapMap>, tolerant: bool, job_c
     let leak_skip = |key: &str| -> bool {
         // (`$?` after the subshell is its exit status)
         key == "status"
+            // (the terminal's foreground process group is the business of the
+            // shell that controls jobs: judged for its own subshells only)
+            || key == "ttyfg" && (!job_control || lazy_tty)
+            || key == "jobs" && t.stops
             || (key == "jobs" || key == "lastasync") && t.kind == Kind::Async
             || key == cs_var && matches!(t.kind, Kind::Cs | Kind::CsTrap)
     };
@@ -469,7 +490,8 @@ fn check_test(t: &Test, snaps: &BTreeMap<String, SnapMap>, tolerant: bool, job_c
         }
         let stoppers_open = interactive;
         let skip = |key: &str| -> bool {
-            if key == "stack" || key == "jobs" {
+            // (a foreground job of a job-control shell has the terminal)
+            if key == "stack" || key == "jobs" || key == "ttyfg" {
                 return true;
             }
             if stoppers_open && matches!(key, "disp:120" | "disp:121" | "disp:122" | "trap:S120" | "trap:S121" | "trap:S122") {
@@ -819,6 +841,15 @@ impl Prop for C08 {
         // crash injection: children are killed (SIGKILL from outside) at seeded
         // instants; whatever a child had done by then must not show in the
         // parent, and every snapshot that was taken still obeys the rules
+        // (under faults no subshell stops itself: whether `fg` can bring it back is
+        // another matter)
+        let calm = {
+            let mut c = case.clone();
+            for t in &mut c.tests {
+                t.stops = false;
+            }
+            c
+        };
         let crash_runs = match tier {
             Tier::Quick => 1,
             Tier::Thorough => 3,
@@ -827,14 +858,14 @@ impl Prop for C08 {
             let mut cfg = draw_config(&mut rng, 1 + j);
             cfg.crash_permille = *rng.pick(&[20u32, 60, 150]);
             cfg.crash_max = rng.range(1, 3);
-            let obs = run_crash(&case, &cfg, Decider::record(Rng::stream(seed, 890 + j as u64, index)));
+            let obs = run_crash(&calm, &cfg, Decider::record(Rng::stream(seed, 890 + j as u64, index)));
             stats.note_run(case_hash ^ 0xC4A5, &obs.outcome, obs.faults_fired);
             stats.add_counters(&obs.counters);
             stats.digest(index, obs_digest(&obs));
-            if let Some(mut v) = check_run_opt(&case, &obs, true) {
+            if let Some(mut v) = check_run_opt(&calm, &obs, true) {
                 stats.count("violating_runs", 1);
                 v.1 = format!("crash:{}", v.1);
-                return Some(failure(&case, &cfg, &obs, v));
+                return Some(failure(&calm, &cfg, &obs, v));
             }
         }
         // descriptor exhaustion: one seeded descriptor allocation (of the parent
@@ -849,14 +880,14 @@ impl Prop for C08 {
             for j in 0..emfile_runs {
                 let mut cfg = draw_config(&mut rng, j);
                 cfg.fail_alloc_at = Some(1 + rng.below(base_allocs));
-                let (obs, _) = run_one(&case, &cfg, Decider::record(Rng::stream(seed, 870 + j as u64, index)));
+                let (obs, _) = run_one(&calm, &cfg, Decider::record(Rng::stream(seed, 870 + j as u64, index)));
                 stats.note_run(case_hash ^ 0xE3F1, &obs.outcome, obs.faults_fired);
                 stats.add_counters(&obs.counters);
                 stats.digest(index, obs_digest(&obs));
-                if let Some(mut v) = check_run_mode(&case, &obs, true, true) {
+                if let Some(mut v) = check_run_mode(&calm, &obs, true, true) {
                     stats.count("violating_runs", 1);
                     v.1 = format!("emfile:{}", v.1);
-                    return Some(failure(&case, &cfg, &obs, v));
+                    return Some(failure(&calm, &cfg, &obs, v));
                 }
             }
         }
@@ -880,7 +911,7 @@ impl Prop for C08 {
         }
         // a descriptor limit of 10: every allocation of an internal descriptor fails
         {
-            let mut low = case.clone();
+            let mut low = calm.clone();
             low.low_limit = true;
             let cfg = draw_config(&mut rng, 1);
             let (obs, _) = run_one(&low, &cfg, Decider::record(Rng::stream(seed, 860, index)));
